@@ -42,7 +42,7 @@ ASSUMPTIONS = [
     'numeric comparison rtol 1e-9 at 3 sampled inputs; samples with non-finite intermediates or near branch points are skipped',
 ]
 
-STARTS = ['pheno', 'basic_iv_nm', 'basic_oral_nm', 'pheno_real', 'pheno_advan3', 'mox2', 'mox_2comp', 'pheno_conc', 'pheno5']
+STARTS = ['pheno', 'basic_iv_nm', 'basic_oral_nm', 'pheno_real', 'pheno_advan3', 'mox2', 'mox_2comp', 'pheno_conc', 'pheno5', 'oral_cmt_nm', 'oral_periph_cmt_nm']
 
 DOC_REFUSALS = (ValueError, NotImplementedError, KeyError)
 
@@ -104,10 +104,10 @@ def table():
         ('set_instantaneous_absorption', lambda m, a, b: pm.set_instantaneous_absorption(m)),
         ('add_peripheral_compartment', lambda m, a, b: pm.add_peripheral_compartment(m)),
         ('remove_peripheral_compartment', lambda m, a, b: pm.remove_peripheral_compartment(m)),
-        ('set_transit_compartments', lambda m, a, b: pm.set_transit_compartments(m, a % 4)),
+        ('set_transit_compartments', lambda m, a, b: pm.set_transit_compartments(m, [0, 1, 2, 3, 5, 7, 8][a % 7])),
         ('add_lag_time', lambda m, a, b: pm.add_lag_time(m)),
         ('remove_lag_time', lambda m, a, b: pm.remove_lag_time(m)),
-        ('add_bioavailability', lambda m, a, b: pm.add_bioavailability(m)),
+        ('add_bioavailability', lambda m, a, b: pm.add_bioavailability(m, logit_transform=bool(a % 2))),
         ('remove_bioavailability', lambda m, a, b: pm.remove_bioavailability(m)),
         ('set_michaelis_menten_elimination', lambda m, a, b: pm.set_michaelis_menten_elimination(m)),
         ('set_mixed_mm_fo_elimination', lambda m, a, b: pm.set_mixed_mm_fo_elimination(m)),
@@ -211,7 +211,9 @@ def check_semantics(model, tm, spec_k, ctx, classes):
     cmap = getattr(model.internals, 'compartment_map', None)
     if cmap and ode is not None and set(cnames) <= set(cmap) and sorted(cmap[c] for c in cnames) == list(range(1, len(cnames) + 1)):
         cands.append({c: cmap[c] for c in cnames})
-    if ode is not None and len(cnames) <= 6:
+    if ode is not None and len(cnames) > 6 and not cands:
+        raise Reject('large system without reported compartment map')
+    if ode is not None and (len(cnames) <= 5 or (not cands and len(cnames) <= 6)):
         for perm in itertools.permutations(range(1, len(cnames) + 1)):
             d = dict(zip(cnames, perm))
             if d not in cands:
@@ -392,6 +394,22 @@ def dataset_consistency(model, tm, sigma, ctx):
         raise Violation('dataset:rate-parameter-infusion-without-RATE=-1', detail=ctx)
     if kinds == {'bolus'} and has_rate and (doserows['RATE'] != 0).any():
         raise Violation('dataset:bolus-model-with-nonzero-RATE', detail=ctx)
+    # CMT column (not dropped): dose records must be routed to the compartments that carry the doses of the
+    # in-memory model, observation records to the compartment whose amount the observation is taken from
+    if 'CMT' in df.columns and 'CMT' in di.names and not di['CMT'].drop and sigma:
+        dose_cmts = sorted({int(v) for v in doserows['CMT'].unique()})
+        want = sorted(sigma[c] for c in ode.compartment_names if ode.find_compartment(c).doses)
+        if dose_cmts != want:
+            raise Violation('dataset:CMT-of-dose-records', observed=dose_cmts, expected=want, detail=ctx)
+        obsrows = df[df[amt] == 0]
+        obs_cmts = sorted({int(v) for v in obsrows['CMT'].unique()} - {0})
+        used = []
+        for st_ in model.statements.after_odes:
+            for c in ode.compartment_names:
+                if f'A_{c}(t)' in {str(x) for x in st_.rhs_symbols} and c not in used:
+                    used.append(c)
+        if obs_cmts and used and not set(obs_cmts) <= {sigma[c] for c in used}:
+            raise Violation('dataset:CMT-of-observation-records', observed=obs_cmts, expected=sorted(sigma[c] for c in used), detail=ctx)
     if has_rate:
         inp = [n for n, dr in tm.input if not dr]
         if 'RATE' not in inp:
